@@ -24,12 +24,40 @@ pub fn outcome(s: String) {
     }
 }
 
-/// Run one harness body under loom; prints one JSON line on success.
+/// CPU seconds (user + system) this process has used so far. The budget of a harness is counted in CPU
+/// time, not wall time, so that a busy machine does not turn a complete exploration into a capped one
+/// (loom runs all model threads of one harness on a single OS thread).
+fn cpu_secs() -> f64 {
+    let Ok(stat) = std::fs::read_to_string("/proc/self/stat") else { return 0.0 };
+    // the fields after the parenthesised command name; utime and stime are the 12th and 13th of those
+    let Some(rest) = stat.rsplit_once(')').map(|x| x.1) else { return 0.0 };
+    let f: Vec<&str> = rest.split_whitespace().collect();
+    let ticks = f.get(11).and_then(|x| x.parse::<u64>().ok()).unwrap_or(0) + f.get(12).and_then(|x| x.parse::<u64>().ok()).unwrap_or(0);
+    ticks as f64 / 100.0
+}
+
+fn print_result(complete: bool, start: Instant) {
+    let outcomes = OUTCOMES.lock().unwrap_or_else(|p| p.into_inner()).clone();
+    println!(
+        "{}",
+        json!({
+            "schedules": SCHEDULES.load(Ordering::Relaxed),
+            "outcomes": outcomes,
+            "complete": complete,
+            "secs": start.elapsed().as_secs_f64(),
+            "cpu_secs": cpu_secs(),
+        })
+    );
+}
+
+/// Run one harness body under loom; prints one JSON line on success. `max_secs` is a budget of CPU seconds;
+/// a harness that uses it up stops and is reported as incomplete (never as a verdict).
 pub fn run_child(bound: Option<usize>, max_secs: u64, f: impl Fn() + Send + Sync + 'static) {
     let mut b = loom::model::Builder::new();
     b.preemption_bound = bound;
     b.max_branches = 200_000;
-    b.max_duration = Some(Duration::from_secs(max_secs));
+    // wall-clock backstop only (ten times the CPU budget)
+    b.max_duration = Some(Duration::from_secs(max_secs * 10));
     if std::env::var_os("LOOM_CHECKPOINT_FILE").is_none() {
         b.checkpoint_interval = 2000;
     }
@@ -42,20 +70,15 @@ pub fn run_child(bound: Option<usize>, max_secs: u64, f: impl Fn() + Send + Sync
     }));
     let start = Instant::now();
     b.check(move || {
-        SCHEDULES.fetch_add(1, Ordering::Relaxed);
+        let n = SCHEDULES.fetch_add(1, Ordering::Relaxed);
+        if n % 128 == 127 && cpu_secs() > max_secs as f64 {
+            print_result(false, start);
+            std::process::exit(0);
+        }
         f();
     });
-    let elapsed = start.elapsed();
-    let outcomes = OUTCOMES.lock().unwrap().clone();
-    println!(
-        "{}",
-        json!({
-            "schedules": SCHEDULES.load(Ordering::Relaxed),
-            "outcomes": outcomes,
-            "complete": elapsed < Duration::from_secs(max_secs),
-            "secs": elapsed.as_secs_f64(),
-        })
-    );
+    let wall_capped = start.elapsed() >= Duration::from_secs(max_secs * 10);
+    print_result(!wall_capped, start);
 }
 
 pub struct Job {
